@@ -77,7 +77,7 @@ class Interp:
         s.mod = mod; s.dom = dom; s.solver = z3.Solver(); s.pc = []; s.decisions = list(decisions or []); s.taken = []
         s.st = stats or Stats(); s.viol = []; s.regions = []; s.globals = {}; s.rcnt = 0; s.bases = {}
         s.notes = []; s.val_cache = {}; s.fma_fused = '+fma' in mod.target_features
-        s.heap_calls = []; s.depth = 0; s.name_ite = False; s.pc_gen = 0
+        s.heap_calls = []; s.depth = 0; s.name_ite = False; s.pc_gen = 0; s.uf_int = False
         for c in (pc or []): s.assume(c)
 
     # ------------------------------------------------------------ solver helpers
@@ -322,6 +322,13 @@ class Interp:
                 r = abs(SA) % abs(SB); return mask(r if SA >= 0 else -r, w)
             raise EncodingError(op)
         A, B = bv(a, w), bv(b, w)
+        if s.uf_int and op == 'mul' and not isinstance(a, int) and not isinstance(b, int):   # (div/rem stay exact: seq::size() divides symbolic by symbolic)
+            # data arithmetic abstracted to an uninterpreted function (address arithmetic always has a constant operand):
+            # used by the view/alias properties, which are about WHICH elements are combined, not about the product itself
+            key = ('ufint', op, w); f = s.dom.ufs.get(key)
+            if f is None: f = s.dom.ufs[key] = z3.Function(f'ufint_{op}_{w}', z3.BitVecSort(w), z3.BitVecSort(w), z3.BitVecSort(w))
+            if op == 'mul' and not A.eq(B): s.dom.hyp.append(f(A, B) == f(B, A))
+            return f(A, B)
         if op in ('udiv', 'urem', 'sdiv', 'srem'):
             if s.feasible(B == 0):
                 s.viol.append(MemViolation('ub', f'{op} by zero possible', s.model_for(B == 0)))
@@ -401,6 +408,9 @@ class Interp:
         return r
 
     def ite0(s, c, a, b, w=None):
+        # a conditionally initialised cell read back: uninitialised under the complement, where any value is allowed
+        if isinstance(a, CondVal): a = a.v
+        if isinstance(b, CondVal): b = b.v
         if a is b: return a
         if isinstance(c, int): return a if c else b
         if isinstance(a, list): return [s.ite(c, x, y, w) for x, y in zip(a, b)]
